@@ -4,6 +4,7 @@ CONSTANTS
   Keys = {"a", "b"}
   KeyPlans <- OneCallPlans
   ZeroKeySets <- AnyZeroKeys
-INVARIANTS TypeOK OnceOnly ExactlyOnce SameResult WaitsOnlyOnSameKey IndependentKeys TokenConservation ClosedImpliesCached OneLoaderPerKey LoaderKeyOK
+  PanicKeySets <- OnePanicKey
+INVARIANTS TypeOK OnceOnly ExactlyOnce NoRetryAfterPanic OnePanicPerKey NoFaultNoStuck SameResult WaitsOnlyOnSameKey IndependentKeys TokenConservation ClosedImpliesCached OneLoaderPerKey LoaderKeyOK
 PROPERTIES MapStable Termination EveryGetReturns AbsSpec
 CHECK_DEADLOCK FALSE
